@@ -154,8 +154,18 @@ def main(argv=None):
     ok, out, secs = build.build_harness()
     lean_info["harness_s"] = round(secs, 1)
     if not ok:
+        # the crate as it stands cannot be driven by the executor (a struct, a signature or a hook it relies on changed): the tie between the
+        # model and the code is broken - nothing is shown for this tree
         print("harness/implementation does not build:\n" + out[-3000:])
-        return 2
+        os.makedirs(os.path.join(VERIF, "work", "replay"), exist_ok=True)
+        rpath = os.path.join(VERIF, "work", "replay", f"{pid}_{a.tier}_{a.seed}.json")
+        json.dump({"property": pid, "kind": "proof obligation or correspondence no longer checks",
+                   "broken_obligations": ["correspondence: the request executor (harness, features log + verif-hooks) no longer builds against /repo"],
+                   "theorems": prop.THEOREMS, "build_output": out[-3000:]}, open(rpath, "w"), indent=1, default=str)
+        print(f"VIOLATION property={pid} replay={rpath} no-failing-input-found")
+        ctx.mismatch("the request executor does not build against the working tree", None, out[-800:], None)
+        write_evidence(ctx, prop, lean_info, time.time() - t0, 1)
+        return 1
 
     # (c)+(d)
     try:
@@ -165,6 +175,13 @@ def main(argv=None):
     except Exception:
         traceback.print_exc()
         ctx.mismatch("check machinery raised an exception", None, None, None, traceback.format_exc()[-1500:])
+    # answers that are machinery failures (a request the executor could not even pose to the library: table no longer deserialises, unknown
+    # field, process died): the correspondence did not run for them - silence here would be a hole, not a pass
+    from . import core as _core
+    if _core.MACHINERY_ERRORS:
+        what, rq, msg = _core.MACHINERY_ERRORS[0]
+        ctx.mismatch(f"{len(_core.MACHINERY_ERRORS)} requests could not be executed by the {what} (first: {msg[:200]})",
+                     rq if isinstance(rq, dict) and len(str(rq)) < 4000 else {"op": (rq or {}).get("op") if isinstance(rq, dict) else None}, msg, None)
 
     # decision
     known = load_known(pid)
